@@ -844,6 +844,43 @@ def gen_int_case(rng):
     return dict(n=n, Q=Q, c=cc, A=A, b=b, G=G, h=h, x0mode=x0mode, x0=x0, wit=None, src="int")
 
 
+def gen_overdetermined_case(rng):
+    """more equality rows than variables: n independent rows that pin a point z, plus 1..2 further rows that are either
+    consistent with z (the program is feasible, duplicated / combined information) or off by an integer (rank [A|b] = n + 1:
+    the program is INFEASIBLE although every n-row subsystem is solvable); inequalities are slack at z"""
+    n = rng.range(1, 3)
+    while True:
+        A = [[float(rng.range(-3, 3)) for _ in range(n)] for _ in range(n)]
+        det = (A[0][0] if n == 1 else A[0][0] * A[1][1] - A[0][1] * A[1][0] if n == 2 else
+               A[0][0] * (A[1][1] * A[2][2] - A[1][2] * A[2][1]) - A[0][1] * (A[1][0] * A[2][2] - A[1][2] * A[2][0])
+               + A[0][2] * (A[1][0] * A[2][1] - A[1][1] * A[2][0]))
+        if det != 0:
+            break
+    z = [float(rng.range(-2, 2)) for _ in range(n)]
+    for _ in range(rng.range(1, 2)):
+        row = [float(rng.range(-3, 3)) for _ in range(n)]
+        if not any(row):
+            row[rng.below(n)] = 1.0
+        A.append(row)
+    b = [sum(a * t for a, t in zip(r, z)) for r in A]
+    if rng.chance(0.7):
+        b[-1] += float(rng.choice([-3, -2, -1, 1, 2, 3]))          # inconsistent
+    order = rng.shuffle(list(range(len(A))))
+    A = [A[i] for i in order]; b = [b[i] for i in order]
+    m = rng.choice([0, 0, 1, 2, 3])
+    G = [[float(rng.range(-3, 3)) for _ in range(n)] for _ in range(m)]
+    h = [sum(a * t for a, t in zip(r, z)) + float(rng.range(1, 3)) for r in G]
+    Q = None
+    if rng.chance(0.5):
+        D = [[rng.range(-2, 2) for _ in range(n)] for _ in range(rng.range(1, n))]
+        Q = [[float(sum(D[k][i] * D[k][j] for k in range(len(D)))) for j in range(n)] for i in range(n)]
+    cc = [float(rng.range(-3, 3)) for _ in range(n)]
+    x0mode, x0 = 0, None
+    if m > 0 and rng.chance(0.3):
+        x0mode, x0 = 1, list(z)
+    return dict(n=n, Q=Q, c=cc, A=A, b=b, G=G, h=h, x0mode=x0mode, x0=x0, wit=None, src="int")
+
+
 def exhaustive_1d():
     vals = [-1.0, 0.0, 1.0]
     for q in (None, 1.0):
@@ -951,6 +988,8 @@ def gen(rng, tier):
             ops += with_restatements(rng, case, 1 if quick else None)[1:]
     for _ in range(320 if quick else 1200):
         ops += with_restatements(rng, gen_int_case(rng), count)
+    for _ in range(60 if quick else 300):
+        ops += with_restatements(rng, gen_overdetermined_case(rng), 1 if quick else None)
     for _ in range(120 if quick else 400):
         ops += with_restatements(rng, gen_kkt_case(rng, 4), count)
     for _ in range(330 if quick else 1500):
